@@ -39,6 +39,8 @@ def make_listener(problems, passive=False):
         # -- helpers
         def _add(self, attr, cont, child, backattr):
             self.count += 1
+            if not passive and id(child) in self.members.get((attr, id(cont)), ()):
+                problems.append(("announcement-without-change:add:" + attr, "an add was announced for a child the mirror already holds"))
             if not passive:
                 if any(x is child for x in getattr(cont, attr)) or getattr(child, backattr) is cont:
                     problems.append(("announced-after-effect:add:" + attr, "child already attached when add was announced"))
@@ -46,6 +48,8 @@ def make_listener(problems, passive=False):
 
         def _rem(self, attr, cont, child, backattr):
             self.count += 1
+            if not passive and id(child) not in self.members.get((attr, id(cont)), ()):
+                problems.append(("announcement-without-change:remove:" + attr, "a removal was announced for a child the mirror does not hold (announced twice?)"))
             if not passive and id(child) in self.members.get((attr, id(cont)), ()):
                 if not any(x is child for x in getattr(cont, attr)) or getattr(child, backattr) is not cont:
                     problems.append(("announced-after-effect:remove:" + attr, "child already detached when removal was announced"))
@@ -83,6 +87,8 @@ def make_listener(problems, passive=False):
         def wire_connect_pin(self, w, pin):
             self.count += 1
             k = pinkey(pin)
+            if not passive and k in self.conn.get(id(w), ()):
+                problems.append(("announcement-without-change:connect", "a connection was announced that the mirror already holds"))
             if not passive and k not in self.conn.get(id(w), ()):
                 sp = self._stored(pin)
                 if sp.wire is w or any(x is sp for x in w.pins):
@@ -198,7 +204,10 @@ class C19Oracle(Oracle):
     def step(self, w, ev, outcome, token):
         bad = list(dict.fromkeys(self.problems))
         self.notified = self.shadow.count - token
-        # (d) the API behaves the same with and without listeners
+        # (d) the API behaves the same with and without listeners (a call during which no listener was
+        # invoked cannot have been influenced by one: skipped)
+        if self.notified == 0 and outcome[0] == "raised":
+            return bad
         dig = core.digest(snapshot(w))
         self.stale, self.digest = True, dig
         self.end(w)
